@@ -56,6 +56,7 @@ def gen_structs(maxnodes):
                         continue
                     for c2 in S(n - 1 - n1):
                         res.append(['dict', ['a', c1], ['b', c2]])
+                        res.append(['dict', ['b', c1], ['a', c2]])          # inserted b first: the result must keep the insertion order
         # dedupe
         seen, out = set(), []
         for r in res:
